@@ -1,0 +1,33 @@
+//go:build verif
+
+// Verification hook for property C14 (variable precedence). Add-only; compiled only with
+// -tags verif. Builds a Task the way Manager.newTaskForMesosOffer does (same field
+// initialisation, properties wrapped around the class properties) without a Mesos offer, so
+// that BuildTaskCommand and BuildPropertyMap can be driven on a real role.
+package task
+
+import (
+	"github.com/AliceO2Group/Control/common/gera"
+	"github.com/AliceO2Group/Control/core/task/channel"
+	"github.com/AliceO2Group/Control/core/task/sm"
+	"github.com/AliceO2Group/Control/core/task/taskclass"
+)
+
+func VerifC14NewTask(name, taskId, hostname string, class *taskclass.Class, parent parentRole) *Task {
+	t := &Task{
+		name:         name,
+		parent:       parent,
+		className:    class.Identifier.String(),
+		hostname:     hostname,
+		agentId:      "agent-verif",
+		offerId:      "offer-verif",
+		taskId:       taskId,
+		properties:   gera.MakeMap[string, string]().Wrap(class.Properties),
+		executorId:   "executor-verif",
+		localBindMap: make(channel.BindMap),
+		state:        sm.STANDBY,
+		status:       INACTIVE,
+	}
+	t.GetTaskClass = func() *taskclass.Class { return class }
+	return t
+}
